@@ -497,6 +497,10 @@ func (t *Collection) VisitItemsRandom(
 	if err != nil {
 		return err
 	}
+	if si == nil {
+		// Emptied by the mutator since determineBlocks counted the items.
+		return fmt.Errorf("impossible block sizes,%d,%d", 0, 0)
+	}
 	defer t.store.ItemDecRef(t, si)
 	err = t.VisitItemsAscendEx(si.Key, false, v)
 	if err != nil {
@@ -569,6 +573,10 @@ func (t *Collection) VisitItemsAscendBlockEx(
 	si, err := t.MinItem(false)
 	if err != nil {
 		return err
+	}
+	if si == nil {
+		// Emptied by the mutator since determineBlocks counted the items.
+		return fmt.Errorf("impossible block sizes,%d,%d", 0, 0)
 	}
 	defer t.store.ItemDecRef(t, si)
 	err = t.VisitItemsAscendEx(si.Key, false, v)
